@@ -13,7 +13,7 @@ CHECKS = {
          "Trusts fontTools' CFF reader and RecordingPen; coordinates |v|<=16000, <=14 glyphs, depth<=5; normal form of DESIGN 4.1/4.2.",
          "DESIGN.md section 5 C01, 4.1, 4.2"),
  "C02": ("runtime monitoring: structural + segment-wise Bezier-distance oracle over reloaded glyf data of generated UFOs; maxp recomputed by own DFS",
-         "Exploration: generated UFOs compiled by the real compileTTF under random convertCubics/reverseDirection/flattenComponents/allQuadratic/cubicConversionError/dropImpliedOnCurves settings; every reloaded glyph is matched point for point (lines, quadratics, on-curve end points, direction) against the exact-rational resolver, each converted cubic is measured against its quadratic run, composites are compared with the (flattened) reference component list, maxp is recomputed.",
+         "Exploration: generated UFOs compiled by the real compileTTF (12 %: through compileInterpolatableTTFs as two identical masters) under random convertCubics/reverseDirection/flattenComponents/allQuadratic/cubicConversionError/dropImpliedOnCurves settings; every reloaded glyph is matched point for point (lines, quadratics, on-curve end points, direction) against the exact-rational resolver, each converted cubic is measured against its quadratic run, composites are compared with the (flattened) reference component list, maxp is recomputed.",
          "Trusts fontTools' glyf reader; distance bound conversionError*upm + sqrt(1/2) + 0.07; 2x2 entries > 2 (not storable) only counted.",
          "DESIGN.md section 5 C02, 4.3"),
  "C12": ("runtime monitoring: relation between executions (one UFO compiled under every optimizeCFF x subroutinizer x cffVersion combination; drawings, advances, layout bytes compared pairwise)",
@@ -21,19 +21,19 @@ CHECKS = {
          "Trusts fontTools' CFF/CFF2 reader; default rounding only; normal form of DESIGN 4.1 (strict differences counted).",
          "DESIGN.md section 5 C12, 4.1"),
  "C03": ("runtime monitoring: rule oracle over reloaded glyph order / cmap of generated UFOs, plus a completely enumerated small scope of makeOfficialGlyphOrder",
-         "Exploration with an exhaustively enumerated sub-space: ~1200 random UFOs (hostile names, BMP/supplementary/duplicate code points, stored order or explicit argument with duplicates/unknown names/.notdef anywhere, UVS) through compileTTF/compileOTF -> reload, judged by the order and cmap rules written from the statement; every run also enumerates all 32 name sets x 1555 order lists through the real makeOfficialGlyphOrder (99k calls).",
+         "Exploration with an exhaustively enumerated sub-space: ~1200 random UFOs (hostile names, BMP/supplementary/duplicate code points incl. U+0000, stored order or explicit argument with duplicates/unknown names/.notdef anywhere, UVS) through compileTTF/compileOTF -> reload, judged by the order and cmap rules written from the statement; every run also enumerates all 32 name sets x 1555 order lists through the real makeOfficialGlyphOrder (99k calls).",
          "Trusts fontTools' cmap/maxp readers; ASCII glyph names; '.notdef' carries no code point.",
          "DESIGN.md section 5 C03"),
  "C18": ("runtime monitoring: reference oracle over reloaded GDEF classes / ligature carets / GPOS cursive records and lookup flags of generated multi-script UFOs",
          "Exploration: 3000 generated UFOs (category maps incl. invalid values and non-exported glyphs, caret/vcaret anchors, one-sided and suffixed entry/exit anchors in mixed-direction repertoires with GSUB-reachable alternates, with/without user GDEF blocks) compiled by the real compileTTF; GDEF and CursivePos data read back and compared with the UFO data; script direction by an independent provenance closure.",
-         "Trusts fontTools' GDEF/GPOS readers and unicodedata; direction of script-neutral/mixed glyphs not judged (counted).",
+         "Trusts fontTools' GDEF/GPOS readers and unicodedata; script-neutral glyphs must keep the right-to-left flag, glyphs of mixed provenance are not judged (counted).",
          "DESIGN.md section 5 C18"),
  "C20": ("runtime monitoring: reachability oracle over the reloaded GPOS ScriptList -> LangSys -> feature -> lookup -> coverage graph of generated multi-script UFOs",
-         "Exploration: 2400 generated UFOs with kerning and mark/cursive anchors, with and without languagesystem statements, incl. encoded source glyphs of a foreign script that are not exported (public.skipExportGlyphs) next to kerned glyphs whose Script_Extensions name that script; for every language system reaching generated kern/dist, every generated mark/mkmk/curs/abvm/blwm lookup covering a glyph of that script must be reachable too. The known defect (a script the exported font really supports is registered only by the kern writer) is listed as a finding; any other unreachable feature is a violation.",
+         "Exploration: 2400 generated UFOs with kerning and mark/cursive anchors, with and without languagesystem statements, incl. encoded source glyphs of a foreign script that are not exported (public.skipExportGlyphs) next to kerned glyphs whose Script_Extensions name that script; for every language system reaching generated kern/dist, every generated mark/mkmk/curs/abvm/blwm lookup covering a glyph of that script must be reachable too, and every language system that exposes any generated positioning feature must reach the generated kern/dist lookups acting on its script's glyphs. The known defect (a script the exported font really supports is registered only by the kern writer) is listed as a finding; any other unreachable feature is a violation.",
          "Trusts fontTools' GPOS reader and unicodedata script data; script membership closed over the generated GSUB rules.",
          "DESIGN.md section 5 C20, section 6"),
  "C04": ("runtime monitoring: recomputation oracle over compiled and reloaded tables (raw hmtx/vmtx decoding, own Bezier extrema), byte comparison of save/reload/save, enumerated advance sequences",
-         "Exploration with an enumerated sub-space: all 363 advance sequences of length<=5 over {0,300,700} x TTF/OTF plus ~900 random UFOs; the compiled TTFont is judged twice - ufo2ft's own values before saving (fontTools recomputes hhea/head/OS2/numberOfHMetrics on save) and the reloaded font - against bearings, boxes, aggregates, long-metric counts, VORG, maxp, post names and OS/2 indices recomputed from the stored glyph data; save -> reload -> save (lazy and with every table decompiled) must be byte-identical.",
+         "Exploration with an enumerated sub-space: all 363 advance sequences of length<=5 over {0,300,700} x TTF/OTF plus ~900 random UFOs (15 % of the CFF ones with a rounding tolerance: per-glyph bearings judged directionally, the rest not judged there); the compiled TTFont is judged twice - ufo2ft's own values before saving (fontTools recomputes hhea/head/OS2/numberOfHMetrics on save) and the reloaded font - against bearings, boxes, aggregates, long-metric counts, VORG, maxp, post names and OS/2 indices recomputed from the stored glyph data; save -> reload -> save (lazy and with every table decompiled) must be byte-identical.",
          "Trusts fontTools' readers (hmtx/vmtx also decoded from raw bytes); CFF tolerances per DESIGN 4.6 as corrected (nearest-integer bearings, outward-rounded aggregates on save); SOURCE_DATE_EPOCH pinned.",
          "DESIGN.md section 5 C04, 4.6"),
  "C11": ("runtime monitoring: relation between executions (names on / off / lib default) with per-table byte comparison, plus a naming-rule oracle written from the statement",
@@ -41,7 +41,7 @@ CHECKS = {
          "Trusts fontTools' sfnt reader; Latin-1 feature-file-safe source names; uniqueness numbering scheme not prescribed.",
          "DESIGN.md section 5 C11"),
  "C05": ("runtime monitoring: GPOS interpreter (shaper semantics over the reloaded tables) against an independent UFO kerning lookup, per script tag, for every ordered glyph pair",
-         "Exploration: 700 generated multi-script UFOs (all four kerning precedence levels with deliberate exceptions, zero/fractional/negative values, missing glyphs, unknown groups, GDEF marks, languagesystems none/some/all, quantisation, both kern writers); every ordered glyph pair is evaluated under every script tag by an interpreter of the compiled GPOS and compared with the UFO lookup (value, applied once, x-placement rule); three listed mechanisms are known findings, each re-exercised by a dedicated stratum.",
+         "Exploration: 700 generated multi-script UFOs (all four kerning precedence levels with deliberate exceptions, zero/fractional/negative values, script sets that need repeated merging, missing glyphs, unknown groups, GDEF marks, languagesystems none/some/all, quantisation, both kern writers); every ordered glyph pair is evaluated under every script tag by an interpreter of the compiled GPOS and compared with the UFO lookup (value, applied once, x-placement rule); three listed mechanisms are known findings, each re-exercised by a dedicated stratum.",
          "Trusts fontTools' GPOS/GDEF readers and unicodedata; shaper semantics of DESIGN section 3; quantifier of DESIGN 4.4.",
          "DESIGN.md section 5 C05, 4.4, section 6"),
  "C16": ("runtime monitoring: field-by-field reference oracle (independent fallback table) over reloaded name/OS2/hhea/head/post/CFF tables, plus an exhaustive sweep of every Unicode scalar through the PostScript-name normaliser",
@@ -49,15 +49,15 @@ CHECKS = {
          "Trusts fontTools' table readers; attributes without a destination in the listed tables are unchecked (listed in the evidence assumptions).",
          "DESIGN.md section 5 C16"),
  "C17": ("runtime monitoring: compiled feature text parsed back and compared with the user's statements (subsequence / marker-position oracle), GSUB bytes with vs without writers, writer call-order log",
-         "Exploration: 3000 generated feature files (languagesystems, classes, GSUB features, hand-written kern/mark/mkmk/curs/GDEF blocks with the marker at top/middle/bottom/alone/mis-cased/twice) x writer lists (default, lib, explicit with ellipsis, skip/append, a harness GSUB writer placed last) compiled by the real compileTTF; the debug feature file is parsed back with feaLib and every user statement must survive in order, generated rules must sit at the marker, GSUB bytes must equal the no-writer compile, GSUB writers must run first (hook on BaseFeatureWriter.write).",
+         "Exploration: 3000 generated feature files (languagesystems, classes, GSUB features, hand-written kern/mark/mkmk/curs/abvm/blwm/GDEF blocks (carets by position or by index) with the marker at top/middle/bottom/alone/mis-cased/twice) x writer lists (default, lib, explicit with ellipsis, skip/append, a harness GSUB writer placed last) compiled by the real compileTTF; the debug feature file is parsed back with feaLib and every user statement must survive in order, generated rules must sit at the marker, GSUB bytes must equal the no-writer compile, GSUB writers must run first (hook on BaseFeatureWriter.write).",
          "Trusts feaLib's parser/asFea round trip (checked per case) and fontTools' sfnt reader.",
          "DESIGN.md section 5 C17"),
  "C15": ("runtime monitoring: before/after snapshots of real filter applications compared through the exact-rational resolver (rendering invariance, matrix image, anchor-position closure)",
-         "Exploration: 4000 component-graph fonts (depth<=4, shared bases, arbitrary affine transforms, anchors) x the real Decompose / DecomposeTransformed / Flatten / Transformations / PropagateAnchors filter objects with include/exclude/predicate selections on the font, a glyph-set copy or a foreign dict; the glyphs are read back and every glyph's fully resolved contours must equal (exactly for dyadic inputs) the original's, resp. its image under the requested matrix; propagated anchors must lie where some component path puts a base anchor; second application adds nothing.",
+         "Exploration: 4000 component-graph fonts (depth<=4, shared bases, arbitrary affine transforms, anchors) x the real Decompose / DecomposeTransformed / Flatten / Transformations / PropagateAnchors filter objects with include/exclude/predicate selections on the font, a glyph-set copy or a foreign dict, and the interpolatable variants of Decompose / DecomposeTransformed / Flatten applied once to 2-3 compatible masters without an instantiator; the glyphs are read back and every glyph's fully resolved contours must equal (exactly for dyadic inputs) the original's, resp. its image under the requested matrix; propagated anchors must lie where some component path puts a base anchor; second application adds nothing.",
          "Exact for dyadic/integer inputs, 1e-9 relative otherwise; selection heuristics of anchor propagation deliberately not re-implemented.",
          "DESIGN.md section 5 C15"),
  "C06": ("runtime monitoring: GPOS interpreter (MarkBasePos / MarkLigPos / MarkMarkPos with lookup flags and filtering sets, later lookup wins) against anchor-difference candidates computed from the UFO",
-         "Exploration: 600 generated UFOs (marks with several attaching anchors, bases, ligatures with numbered anchors and gaps, mark-to-mark anchors, fractional coordinates, Indic code points for abvm/blwm, roles by anchors / categories / user GDEF, groupMarkClasses, quantisation); every glyph pair (and every ligature component) is evaluated under every script tag with mark, mkmk, abvm, blwm active together; the final attachment must be one of the source-defined candidates, or absent when there is none.",
+         "Exploration: 600 generated UFOs (marks with several attaching anchors, bases, ligatures with numbered anchors and gaps, mark-to-mark anchors, fractional coordinates, Indic code points for abvm/blwm incl. a second, possibly undeclared Indic script, roles by anchors / categories / user GDEF, groupMarkClasses, quantisation); every glyph pair (and every ligature component) is evaluated under every script tag with mark, mkmk, abvm, blwm active together; the final attachment must be one of the source-defined candidates, or absent when there is none.",
          "Trusts fontTools' GPOS/GDEF readers; shaper semantics of DESIGN section 3; only the mark (and GDEF) writer runs.",
          "DESIGN.md section 5 C06, section 6"),
  "C13": ("runtime monitoring: relation between executions (with / without the skip list) over reloaded outlines, order, cmap, metrics and GPOS results evaluated by the interpreter",
@@ -73,15 +73,15 @@ CHECKS = {
          "Glyph state = outline, components, anchors, metrics, unicodes, lib; over-reporting only counted.",
          "DESIGN.md section 5 C14, 2.3"),
  "C08": ("runtime monitoring: per-table sha256 digests of saved fonts compared across fresh interpreters started with different PYTHONHASHSEED values and across library / memory-vs-disk / inplace / call-history variants",
-         "Exploration: 64 cases (10 repository fixtures + generated layout-heavy UFOs, outline UFOs with lib filters incl. colliding propagated anchor names, generated designspaces) each compiled in 4 fresh interpreters (PYTHONHASHSEED 0-3; thorough: 8) under {defcon, ufoLib2} x {in memory, saved and re-opened} x {first call, second call on the same objects, after another compile function, inplace=True}; all digests of one (case, function, options) must be equal, a mismatch is localised to the table. ufo2ft has no threads: hash order and call history are the only schedules.",
+         "Exploration: 64 cases (10 repository fixtures + generated layout-heavy UFOs incl. the groupMarkClasses option with a deliberate colouring tie, outline UFOs with lib filters incl. colliding propagated anchor names, generated designspaces) each compiled in 4 fresh interpreters (PYTHONHASHSEED 0-3; thorough: 8) under {defcon, ufoLib2} x {in memory, saved and re-opened} x {first call, second call on the same objects, after another compile function, inplace=True}; all digests of one (case, function, options) must be equal, a mismatch is localised to the table. ufo2ft has no threads: hash order and call history are the only schedules.",
          "SOURCE_DATE_EPOCH pinned; head checksum masked; complete public.glyphOrder except in the per-library stratum.",
          "DESIGN.md section 5 C08"),
  "C19": ("runtime monitoring: closed-form variation reference (exact rationals, independent of varLib/fontMath) against real Instantiator instances; deep before/after snapshots of all sources; repeated generation from one instantiator",
-         "Exploration: 2000 generated compatible master families (1-2 axes, 2-4 masters, intermediate/sparse masters, axis maps, rules, aligned/ragged kerning, both UFO libraries) x ~14 instance locations each (master locations, axis extremes, rule boundaries, interior points) x rounding on/off; every coordinate, advance, anchor, info number and kerning value is compared with the master (at master locations) or the closed-form blend; glyph set, unicodes, rule swaps (involution), source snapshots and k-th generation == first are checked.",
+         "Exploration: 2000 generated compatible master families (1-2 axes, 2-4 masters, intermediate/sparse masters, axis maps, rules, aligned/ragged kerning, default source optionally on a named layer, both UFO libraries) x ~14 instance locations each (master locations, axis extremes, rule boundaries, interior points) x rounding on/off; every coordinate, advance, anchor, info number and kerning value is compared with the master (at master locations) or the closed-form blend; glyph set, unicodes, rule swaps (involution), source snapshots and k-th generation == first are checked.",
          "Closed forms cover the layouts listed in the evidence assumptions; exact ties accept both neighbours only where the statement does not fix the rounding mode.",
          "DESIGN.md section 5 C19, section 3 R-var, 4.5"),
- "C09": ("runtime monitoring: structural comparison of the produced master fonts glyph by glyph (contours, end points, on/off flags, component lists, CFF operator sequences), sparse-master glyph-set bounds, with a per-master control compile that counts would-be divergences",
-         "Exploration: 1200 generated compatible master families (per-master exaggerated curvature so that a per-master cu2qu diverges - measured by the control -, per-master component 2x2 differences, sparse layer masters) through compileInterpolatableTTFs / TTFsFromDS / OTFsFromDS with flattenComponents, skipExportGlyphs and custom filters; every glyph must have identical point structure in all masters that contain it; sparse masters must hold '.notdef', the layer's glyphs and only glyphs tied to them by component references.",
+ "C09": ("runtime monitoring: structural comparison of the produced master fonts glyph by glyph (contours, end points, on/off flags, component lists with their 2x2 parts, drawn CFF path operations), sparse-master glyph-set bounds, with a per-master control compile that counts would-be divergences",
+         "Exploration: 1200 generated compatible master families (per-master exaggerated curvature so that a per-master cu2qu diverges - measured by the control -, per-master component 2x2 differences in a single random entry, sparse layer masters - also hosted in a separate UFO - with nested composites) through compileInterpolatableTTFs / TTFsFromDS / OTFsFromDS with flattenComponents, skipExportGlyphs, custom filters and optimizeCFF 1-2 on the OTF path; every glyph must have identical point structure in all masters that contain it; sparse masters must hold '.notdef', the layer's glyphs and only glyphs tied to them by component references.",
          "Masters compatible by construction; placeholder glyphs of sparse masters exempt from the structure comparison.",
          "DESIGN.md section 5 C09"),
  "C10": ("runtime monitoring: the compiled variable font is evaluated at every master location by fontTools' instancer (trusted reader) and compared with the interpolatable master (outlines, advances) and - through the GPOS interpreter - with that master's kerning and anchor data",
